@@ -14,7 +14,14 @@ P = {'id': 'C15',
               'length_prefixed_read_total',
               'vec_u32_decode_total',
               'hex_decode_total',
-              'hex_decode_to_slice_total'],
+              'hex_decode_to_slice_total',
+              'sorted_uint_vec_load_total',
+              'sorted_uint_vec_get_total',
+              'sorted_uint_vec_unfixed_refuted',
+              'zip_offset_load_total',
+              'zip_offset_get_total',
+              'length_prefixed_read_bounded',
+              'length_prefixed_read_regressed_refuted'],
  'trusted': ['modelled (M+S, 39 entry points): src/io/var_int.rs (VarInt::decode, decode_multiple, SignedVarInt::decode_signed), src/io/var_int_variants.rs '
              '(decode_u64 / decode_i64 / decode_u64_sequence / decode_i64_sequence for all 7 strategies, incl. check_sequence_count), src/entropy/dictionary.rs '
              '(DictionaryCompressor::decompress and OptimizedDictionaryCompressor::decompress: flag format, back-reference and size-limit checks; the model tracks '
